@@ -35,6 +35,8 @@ struct Params {
     flush_pm: u64,
     seed: u64,
     subscriber: bool,
+    /// whether the queue gets a metrics recorder (its absence changes the writer's bookkeeping)
+    recorder: bool,
 }
 
 #[derive(Clone)]
@@ -83,10 +85,10 @@ fn run_history(p: &Params, rep: &Report) -> Option<u64> {
         _ => Outcome::Ok,
     });
     let counts = Arc::new(Counts::default());
-    let builder = BackgroundQueueBuilder::new()
-        .capacity(p.capacity)
-        .flush_interval(Duration::from_micros(p.flush_us))
-        .metrics_recorder_local::<dyn metrics::Recorder, _>(CountingRecorder(counts.clone()));
+    let mut builder = BackgroundQueueBuilder::new().capacity(p.capacity).flush_interval(Duration::from_micros(p.flush_us));
+    if p.recorder {
+        builder = builder.metrics_recorder_local::<dyn metrics::Recorder, _>(CountingRecorder(counts.clone()));
+    }
     let (q, handle) = match p.mode {
         Mode::Typed => {
             let (q, h) = builder.build::<IdEntry>(sh.stream());
@@ -169,6 +171,8 @@ fn run_history(p: &Params, rep: &Report) -> Option<u64> {
     }
     drop(q);
     handle.shut_down();
+    // (without a recorder the absence of overflow rests on the flow control alone: at most
+    // `capacity` entries are ever outstanding)
     let overflows = counts.counter("metrique_queue_overflows");
     if overflows != 0 {
         // precondition of C01 not met; excluded (and counted), never judged
@@ -301,6 +305,7 @@ fn gen_params(rng: &mut Rng, subscriber: bool, thorough: bool) -> Params {
         flush_pm: *rng.pick(&[0u64, 5, 50, 300]),
         seed: rng.next_u64(),
         subscriber,
+        recorder: rng.below(3) != 0,
     }
 }
 
@@ -341,6 +346,44 @@ fn native_main(args: &Args, rep: &Report) {
             });
         }
     });
+    // A subscriber installed AFTER a queue was built: from then on a validation failure must be
+    // reported through tracing, not in band. (The global subscriber can be set once per process,
+    // so this runs once, at the very end, when no other history is in flight.)
+    if !subscriber && rep.violation_count() == 0 {
+        let sh = StreamShared::new(args.seed);
+        sh.set_script(|k| match k {
+            EntryKind::Id(id) if id % 2 == 1 => Outcome::Validation,
+            _ => Outcome::Ok,
+        });
+        let (q, handle) = BackgroundQueueBuilder::new().capacity(64).flush_interval(Duration::from_millis(1)).build::<IdEntry>(sh.stream());
+        q.append(IdEntry::new(0, 0));
+        block_on(q.flush_async());
+        let sub = tracing_subscriber::fmt().with_writer(std::io::sink).finish();
+        if tracing::subscriber::set_global_default(sub).is_ok() {
+            // the report is rate limited to one per second: wait out the window so that it WOULD be written
+            std::thread::sleep(Duration::from_millis(1100));
+            for s in 1..6 {
+                q.append(IdEntry::new(0, s));
+            }
+            block_on(q.flush_async());
+            drop(q);
+            handle.shut_down();
+            let log = sh.log();
+            rep.eval();
+            if log.iter().any(|e| matches!(e, Ev::Next { kind: EntryKind::ErrorReport(_), .. })) {
+                rep.violation(
+                    "report-entry-with-subscriber",
+                    json!({"what": "a tracing subscriber was installed after the queue was built; a later validation failure still wrote the in-band error report entry",
+                           "log": log.iter().map(|e| format!("{e:?}")).collect::<Vec<_>>()}),
+                );
+            }
+            let ids: Vec<u64> = log.iter().filter_map(|e| e.id()).collect();
+            if ids != (0..6).map(|s| make_id(0, s)).collect::<Vec<_>>() {
+                rep.violation("entry-lost", json!({"what": "late-subscriber scenario: entries missing or reordered", "ids": ids}));
+            }
+            rep.count("late_subscriber_scenarios", 1);
+        }
+    }
     // rate limit of the in-band report: at most one per second, process-wide
     let reports = REPORT_ENTRIES.load(Ordering::SeqCst);
     let allowed = start.elapsed().as_secs() + 2;
@@ -381,6 +424,7 @@ fn tiny_main(args: &Args, rep: &Report) {
         flush_pm: 200,
         seed: args.seed.wrapping_add(variant),
         subscriber: false,
+        recorder: variant % 2 == 0,
     };
     rep.eval();
     if let Some(sig) = run_history(&p, rep) {
